@@ -157,6 +157,12 @@ func VerifC12_EncryptKeepsInputs() {
 	e2, err2 := enc()
 	verif_Reach("encrypted twice")
 	verif_Assert(err1 == nil && err2 == nil && bytes.Equal(e1, e2), "encrypting the same inputs twice gives identical bytes")
+	// the ciphertext depends on the payload BYTES only, not on the slice that
+	// holds them (capacity, position in a larger buffer)
+	held := append(append(make([]byte, 0, 7+n), 0xee), raw...)[1:]
+	payload = held
+	e3, err3 := enc()
+	verif_Assert(err3 == nil && bytes.Equal(e1, e3), "equal payload bytes encrypt to equal bytes whatever slice holds them")
 	// the reader-privacy sequence: the value key is encrypted first, then used as
 	// passphrase for the metadata
 	pidBytes := []byte{0x00, 0x02, 0xaa, verif_U8("peerByte")}
@@ -169,4 +175,36 @@ func VerifC12_EncryptKeepsInputs() {
 	emd, merr := EncryptMetadata(raw, vk)
 	dmd, derr := DecryptMetadata(emd, vkCopy)
 	verif_Assert(merr == nil && derr == nil && bytes.Equal(dmd, raw), "metadata encrypted under the value key decrypts with the value key")
+}
+
+// C12 (wrong passphrase, long passphrases): value keys used as passphrases are
+// peer ID + context ID, up to ~100 bytes. Two passphrases that differ only in
+// their last bytes (beyond any internal buffer size) still derive different
+// keys: decryption with the other one fails closed. Collision freedom of
+// SHA-256 on the inputs of this run is the stated assumption (cfg).
+func VerifC12_WrongPassphraseLong() {
+	l := []int{31, 32, 33, 63, 64, 65, 66, 100}[verif_Choose("passLen", 0, 7)]
+	common := make([]byte, l-1)
+	for i := range common {
+		common[i] = byte(i)
+	}
+	pass := append(append([]byte{}, common...), verif_U8("lastByte"))
+	pass2 := append(append([]byte{}, common...), verif_U8("otherLastByte"))
+	verif_Assume(!bytes.Equal(pass, pass2))
+	payload := verif_Bytes("payload", 2)
+	meta := verif_Bool("metadataVariant")
+	var enc, dec, d2 []byte
+	var err, derr, e2 error
+	if meta {
+		enc, err = EncryptMetadata(payload, pass)
+		dec, derr = DecryptMetadata(enc, pass)
+		d2, e2 = DecryptMetadata(enc, pass2)
+	} else {
+		enc, err = EncryptValueKey(payload, pass)
+		dec, derr = DecryptValueKey(enc, pass)
+		d2, e2 = DecryptValueKey(enc, pass2)
+	}
+	verif_Reach("decrypted")
+	verif_Assert(err == nil && derr == nil && bytes.Equal(dec, payload), "round trip with a long passphrase")
+	verif_Assert(e2 != nil && d2 == nil, "a passphrase differing only in its last byte fails closed, however long the passphrase")
 }
